@@ -484,7 +484,12 @@ def run_rand_pipeline(ctx):
                                   dict(input=dict(argv=argv), model='coq/PipelineRand.v', theorem='pipeline_seeded_deterministic'), False, site='seed-option', cls=cs['cls'])
                 if r.get('other'):
                     ctx.violation('correspondence', 'random.random() was called on a line the model claims', dict(input=dict(argv=argv)), False, site=SITE, cls='float:' + cs['cls'])
-                if cs['seed'] is not None:
+                n_opts = sum(1 for a in argv[:cs.get('lead_len', 0)] if a in ('--seed', '-S')) if 'lead_len' in cs else None
+                if n_opts is not None and cs['stream'] == 'valid' and len(seeds) != n_opts:
+                    # random.seed called more (or less) often than --seed occurs: the draws are not one seeded session
+                    ctx.tally('seeded pipeline: random.seed calls differ from the seed options', '%d vs %d' % (len(seeds), n_opts))
+                    ok = False
+                elif cs['seed'] is not None:
                     good_seeded.append((cs, r))
             if not ok:
                 bad.append((cs, r, m))
@@ -492,6 +497,8 @@ def run_rand_pipeline(ctx):
         for cs, r, m in bad[:12]:
             diagnose(ctx, cs, r, m, tmp)
         for cs, r, m in bad[12:]:
+            if agrees(m, r):
+                continue
             ctx.violation('correspondence', 'the seeded pipeline model and the tool disagree (model %s)' % verdict(m),
                           dict(input=dict(argv=cs['argv']), model='coq/PipelineRand.v'), False, site=SITE, cls=cs['cls'])
         # ---- a sample of agreeing seeded lines: fresh interpreters, other hash seeds, other directories; one library session ----
@@ -547,5 +554,9 @@ def diagnose(ctx, cs, r, m, tmp):
                 ctx.violation('counterexample', 'property C17: the seeded command line differs from the library session random.seed(S); graph; generator; transformations left to right',
                               replay, True, site=SITE, cls=cs['cls'])
                 return
+    if agrees(m, r):
+        # random.seed was called more often than --seed occurs, but bytes, draws and the library session agree
+        ctx.tally('seeded pipeline: extra random.seed calls without effect on the output', cs['cls'])
+        return
     ctx.violation('correspondence', 'the seeded pipeline model (coq/PipelineRand.v) and the tool disagree (model %s, tool exit %s, %d draws recorded)'
                   % (verdict(m), r.get('rc'), len(r.get('bits') or [])), replay, False, site=SITE, cls=cs['cls'])
